@@ -27,7 +27,7 @@ pub fn ratio_liq(preq: &PreQ, margin: U, f: i128, spot_price: U, d: U, twap_ref:
         Some((tn, tp)) if sp.unsigned_abs() > tp.unsigned_abs() => ("twap", tn, tp),
         _ => ("spot", sn, sp),
     };
-    let mut r = ratio(margin, pl, f, n, d)?;
+    let mut r = ratio_ext(margin, pl, f, n, d)?;
     let mut over = false;
     if let Some(op) = pq_u(preq, "underlying") {
         if op > 0 {
@@ -36,7 +36,7 @@ pub fn ratio_liq(preq: &PreQ, margin: U, f: i128, spot_price: U, d: U, twap_ref:
             if over {
                 let on = pq_field_u(preq, "pnl_oracle", "position_notional")?;
                 let opl = pq_field_i(preq, "pnl_oracle", "unrealized_pnl")?;
-                let ro = ratio(margin, opl, f, on, d)?;
+                let ro = ratio_ext(margin, opl, f, on, d)?;
                 if ro > r {
                     r = ro;
                     which = "oracle";
